@@ -113,7 +113,7 @@ def large_data_native(vc):
     vc.ensures("loo_variants_agree_and_are_finite", np.isfinite(l) and abs(float(l2) - l) <= 1e-8 * max(1.0, abs(l)))
 
 
-@bounded("C11", "selection_native", native_runs=10)
+@bounded("C11", "selection_native", native_runs=24)
 def selection_native(vc):
     """automatic hyper-parameter choice: inside the advertised bounds; multi-start BFGS at least as good as the centre"""
     from inference.gp import GpRegressor, SquaredExponential, ConstantMean, LinearMean
@@ -135,8 +135,10 @@ def selection_native(vc):
         y = 3.0 + 0.5 * rng.normal(size=n)
     opt = vc.choice("optimizer", ["bfgs", "diffev"])
     cv = vc.bool("cross_val")
+    # the number of starts is the caller's: the centre of the box is one of them however few are requested
+    n_starts = vc.choice("n_starts", [None, 1, 2, 4])
     gp = GpRegressor(x, y, y_err=np.full(n, err), kernel=SquaredExponential, mean=[ConstantMean, LinearMean][seed % 2],
-                     optimizer=opt, cross_val=cv)
+                     optimizer=opt, cross_val=cv, n_starts=n_starts)
     lo = np.array([b[0] for b in gp.hp_bounds])
     hi = np.array([b[1] for b in gp.hp_bounds])
     h = np.asarray(gp.hyperpars)
@@ -288,3 +290,12 @@ def loo_likelihood_gradient(vc):
     vc.ensures_forall("covariance_parameter_gradient_is_true_derivative", st.nc,
                       lambda k: S.cmp("==", grad.at(S.add(k, st.nm)), true_grad(("cov", S.z(k)))))
 import contracts.matrix_laws  # noqa: F401  (numerical self-test of the matrix layer's axioms)
+
+
+# The score gradients above are proved MODULARLY over the kernel and mean objects (covariance_and_gradients() /
+# mean_and_gradients() are taken to return K, dK/dtheta_q, m, dm/dtheta_q).  Those callee contracts (written for C10) are
+# obligations of this property as well: a kernel that reports a wrong derivative makes the score gradient wrong.
+from contracts import c10_covariance as _c10
+for _n in ("squared_exponential", "rational_quadratic", "white_noise", "heteroscedastic_noise", "composite",
+           "change_point_logistic", "change_point", "constant_mean", "linear_mean", "quadratic_mean"):
+    contract("C11", "kernel_" + _n, native=False, replay_with="scores_native")(getattr(_c10, _n))
